@@ -1,5 +1,5 @@
-(* C13 - bucket handle lifecycle. Property theorems only; proofs in RegProofs.v. *)
-From Rosmar Require Import Base Registry RegProofs RegModes.
+(* C13 - bucket handle lifecycle. Property theorems only; proofs in RegProofs.v, RegModes.v and (calls through a handle that is not open) Life.v. *)
+From Rosmar Require Import Base Registry RegProofs RegModes Life.
 
 (* the reference count of a registered bucket is exactly the number of handles opened on it and not
    yet closed - after any history of opens (every mode), closes, repeated closes, deletes and writes
@@ -166,3 +166,25 @@ Example C13_sharing_example :
   /\ let s2 := fst (do_open s false "U0" "nA" CreateOrOpen) in
      data_of (fst (do_write s2 0 "k" "v")) 1 = Some [("k", "v")].
 Proof. vm_compute. repeat split. eexists. repeat split. Qed.
+
+(* ---- calls through a handle that is not open, feeds included (Life.v) ---- *)
+
+(* in every history of opens, closes (repeated too), CloseAndDelete, collection creation and drops, writes and
+   feed starts (live or dump) over any handles of a bucket: every call made through a handle that was never
+   opened, has been closed, or whose bucket has been deleted fails - the set of open handles being the one an
+   observer derives from the calls and their answers alone (cwalk) - and such a call changes nothing *)
+Theorem C13_not_open_calls_fail : forall inmem ops, cwalk [] ops (lrun (inmem, ops)) = true.
+Proof. exact not_open_calls_fail. Qed.
+Print Assumptions C13_not_open_calls_fail.
+
+Theorem C13_not_open_call_changes_nothing : forall s o h, op_handle o = Some h -> handle_open s h = false -> lstep s o = (s, false).
+Proof. exact not_open_fails. Qed.
+Print Assumptions C13_not_open_call_changes_nothing.
+
+(* non-vacuity: a dump feed started through a closed handle while another handle stays open is refused, the
+   other handle's write and feed go on; and the checker rejects a trace in which that start succeeds *)
+Example C13_not_open_example :
+  let ops := [LOpenHandle 0; LOpenHandle 1; LClose 1; LStart 1 1 "_default._default" true; LWrite 0 "_default._default"] in
+  map lo_ok (lrun (true, ops)) = [true; true; true; false; true]
+  /\ cwalk [] ops (map (fun b => mkLobs b []) [true; true; true; true; true]) = false.
+Proof. vm_compute. split; reflexivity. Qed.
